@@ -11,6 +11,7 @@ import (
 	"fmt"
 	"sort"
 	"sync"
+	"time"
 )
 
 // ---------------------------------------------------------------- scheduler
@@ -33,6 +34,7 @@ type Scheduler struct {
 	Trace   []string
 	Points  int
 	Dead    bool // deadlock observed
+	Stuck   bool // a thread blocked on something the shim does not control (channel, real lock, ...)
 	panics  []any
 }
 
@@ -95,7 +97,14 @@ func Run(choose func(n int) int, bodies ...func()) (s *Scheduler) {
 		s.Trace = append(s.Trace, fmt.Sprintf("t%d:%s", t.id, t.op))
 		t.enabled = nil
 		t.resume <- struct{}{}
-		<-s.yield
+		select {
+		case <-s.yield:
+		case <-time.After(10 * time.Second):
+			// the thread neither finished nor reached a scheduling point: it waits for something the
+			// scheduler does not own; the execution cannot be continued deterministically
+			s.Stuck = true
+			return s
+		}
 		last = t
 	}
 }
